@@ -333,4 +333,14 @@ decreasing_by
   · have := (List.dropWhile_suffix (l := r) (fun x => !isSpace x)).length_le
     simp only [List.length_cons]; omega
 
+/-! ### the whitespace table, observable
+
+`isSpace` (`Gen/C08.lean`) is generated from `str.isspace` of the interpreter that ran the
+generator.  `spacesIn lo n` lists the code points `lo ≤ k < lo + n` the table calls whitespace, so
+that the driver can be asked about EVERY code point and compared with the interpreter that runs
+the real tokenizer (`c08.spaces`).  Surrogates are not `Char`s (`Char.ofNat` maps them to NUL,
+which is not whitespace - neither is a lone surrogate for Python). -/
+def spacesIn (lo n : Nat) : List Nat :=
+  ((List.range n).map (· + lo)).filter (fun k => isSpace (Char.ofNat k))
+
 end Clikit.Tokenizer
